@@ -20,6 +20,11 @@ func TestMain(m *testing.M) {
 	_ = fs.Set("alsologtostderr", "false")
 	_ = fs.Set("stderrthreshold", "FATAL")
 	klog.SetOutput(io.Discard)
+	if os.Getenv("KSIM_KLOG") != "" {
+		_ = fs.Set("logtostderr", "true")
+		_ = fs.Set("stderrthreshold", "INFO")
+		_ = fs.Set("v", os.Getenv("KSIM_KLOG"))
+	}
 	os.Exit(m.Run())
 }
 
